@@ -11,8 +11,11 @@ import time
 import traceback
 
 VERIF = os.path.dirname(os.path.dirname(os.path.abspath(__file__)))
-EVIDENCE = os.path.join(VERIF, "evidence")
-REPLAYS = os.path.join(VERIF, "replays")
+# VERIF_OUT redirects evidence and replay files (used when a check is pointed at a scratch worktree holding a
+# seeded change, PYGOM_REPO=<worktree>, so that /verif/evidence keeps describing /repo itself)
+_OUT = os.environ.get("VERIF_OUT") or VERIF
+EVIDENCE = os.path.join(_OUT, "evidence")
+REPLAYS = os.path.join(_OUT, "replays")
 KNOWN = os.path.join(VERIF, "known_findings.json")
 
 
